@@ -53,10 +53,23 @@ func (c *Ctx) placeholders(p *Prov) *placeholders {
 		}
 	}
 	// classifier pattern: the constant compiled into the global used by IsEmail
+	// the regexp global the classifier matches against (found through the classifier, not by name)
+	var emailG *ssa.Global
+	if ie := c.Fn("IsEmail"); ie != nil {
+		allInstrs(ie, func(i ssa.Instruction) {
+			if cc := callCommonOf(i); cc != nil && strings.HasPrefix(calleeKey(cc), "(*regexp.Regexp).Match") && len(cc.Args) > 0 {
+				if ld, ok := cc.Args[0].(*ssa.UnOp); ok {
+					if g, ok := ld.X.(*ssa.Global); ok {
+						emailG = g
+					}
+				}
+			}
+		})
+	}
 	if initFn := c.Fn("init"); initFn != nil {
 		allInstrs(initFn, func(i ssa.Instruction) {
 			if st, ok := i.(*ssa.Store); ok {
-				if g, ok := st.Addr.(*ssa.Global); ok && g.Name() == "emailRegex" {
+				if g, ok := st.Addr.(*ssa.Global); ok && emailG != nil && g == emailG {
 					if call, ok := st.Val.(*ssa.Call); ok && calleeKey(&call.Call) == "regexp.MustCompile" {
 						ph.emailPat, _ = constString(call.Call.Args[0])
 					}
@@ -220,7 +233,7 @@ func ruleC05(c *Ctx, r *Report) {
 		switch want {
 		case "generic":
 			if ld, ok := arg.(*ssa.UnOp); ok {
-				if g, ok := ld.X.(*ssa.Global); ok && g.Name() == "redactedString" {
+				if g, ok := ld.X.(*ssa.Global); ok && c.roleName(g) == "redactedString" {
 					okSel = true
 				}
 			}
@@ -270,7 +283,7 @@ func ruleC05(c *Ctx, r *Report) {
 	} else {
 		r.Undecided("C05-R3", "anchors", "-", strings.Join(an.Problems, "; "))
 	}
-	if g := c.GlobalVar("redactedString"); g != nil {
+	if g := c.GlobalByRole("redactedString"); g != nil {
 		for _, f := range c.SortedFuncs() {
 			allInstrs(f, func(i ssa.Instruction) {
 				st, ok := i.(*ssa.Store)
@@ -368,7 +381,7 @@ func constantPlaceholderRule(c *Ctx, r *Report, p *Prov, ph *placeholders, rule 
 			return true
 		}
 		if ld, ok := v.(*ssa.UnOp); ok {
-			if g, ok := ld.X.(*ssa.Global); ok && g.Name() == "redactedString" {
+			if g, ok := ld.X.(*ssa.Global); ok && c.roleName(g) == "redactedString" {
 				return true
 			}
 		}
@@ -487,7 +500,7 @@ func numbersKeptRule(c *Ctx, r *Report, rule string) {
 
 // insertionOrderRule (C04-R5): keys inserted in token order, serialised Front->Next.
 func insertionOrderRule(c *Ctx, r *Report, rule string) {
-	pv := c.Fn("parseValue")
+	pv := c.parserFn()
 	ser := c.Fn("MarshalOrdered")
 	if pv == nil || ser == nil {
 		r.Undecided(rule, "parseValue/MarshalOrdered", "-", "parser or serialiser not found")
